@@ -25,15 +25,25 @@ def corrupt(rng, pk):
         i = rng.randrange(1, len(p) - 1); del p[i]
     elif k < 0.7:
         i = rng.randrange(1, len(p) - 1); p.insert(i, rng.randrange(256))
-    elif k < 0.85:
+    elif k < 0.8:
         p = p[:rng.randrange(2, len(p))]          # truncated: no closing delimiter (the next packet's opening one closes it)
+    elif k < 0.88:
+        # truncated inside an escape pair: the frame ends with the escape byte, the next packet's delimiter follows at once
+        esc = [i for i in range(1, len(p) - 1) if p[i] == 0xFD]
+        x = rng.random()
+        if x < 0.3: p = [0xFE, 0xFD]                  # nothing but the escape byte between two delimiters
+        elif esc and x < 0.7: p = p[:rng.choice(esc) + 1]
+        else: p = p[:rng.randrange(2, len(p))] + [0xFD]
     else:
         i = rng.randrange(1, len(p) - 1); p.insert(i, 0xFE)   # stray delimiter inside
     # keep only corruptions that leave no CRC-valid frame with a malformed payload and no improper escape (outside C02)
     for f in wire.decode([0xFE] + p + [0xFE]):
         raw = f["raw"]
         for j, b in enumerate(raw):
-            if b == 0xFD and (j + 1 >= len(raw) or raw[j + 1] == 0xFD): return None
+            if b == 0xFD and j + 1 < len(raw) and raw[j + 1] == 0xFD: return None
+            # an escape byte at the very end of a frame (truncation): unambiguous as long as the rest is not CRC-valid -
+            # the frame is dropped and must not disturb the packet that follows
+            if b == 0xFD and j + 1 >= len(raw) and _crc_ok(raw): return None
         if f["ok"] is False and _crc_ok(raw): return None
     return p
 
@@ -138,5 +148,5 @@ def run(pid, tier):
                       {"kind": "trace", "module": "Trace_Uplink.tla", "cfg": "Trace_Uplink.cfg", "script": s.text(), "events": ev, "refused_at": k})
     for s, ev in items[:2]: ctx.sample({"script": s.sid, "events": ev[:6]})
     ctx.cov["rule"] = "cases = feed/drain events; distinct = distinct (message length, last byte) of delivered messages"
-    ctx.assumptions += ["debug mode (every message but MSG_STALL surfaces); corruptions that yield a CRC-valid frame with a malformed payload or an improper escape are C12's domain and are not generated"]
+    ctx.assumptions += ["debug mode (every message but MSG_STALL surfaces); corruptions that yield a CRC-valid frame with a malformed payload or a doubled escape byte are C12's domain and are not generated; a frame truncated inside an escape pair is generated (dropped, next packet intact)"]
     return ctx.finish()
